@@ -979,9 +979,11 @@ Theorem rename_call w a b r1 rest x1 :
   has_crlf a = false -> has_crlf b = false ->
   (code x1 <> 350 ->
      exists w', step w (ARename a b) = (OReturn (RvReplies [x1]), w') /\ ready w' /\ w_pending w' = [] /\ w_cur w' = rest /\
+       w_cfg w' = w_cfg w /\
        wire_events (skipn (length (w_trace w)) (w_trace w')) = [WLine (RNFR_ ++ SP :: a); WReply x1]) /\
   (code x1 = 350 -> forall r2 rest2 x2, rest = r2 :: rest2 -> simple_reaction r2 x2 ->
      exists w', step w (ARename a b) = (OReturn (RvReplies [x1; x2]), w') /\ ready w' /\ w_pending w' = [] /\ w_cur w' = rest2 /\
+       w_cfg w' = w_cfg w /\
        wire_events (skipn (length (w_trace w)) (w_trace w')) =
          [WLine (RNFR_ ++ SP :: a); WReply x1; WLine (RNTO_ ++ SP :: b); WReply x2]).
 Proof.
@@ -992,15 +994,17 @@ Proof.
     as (A & B & C & D & _ & O1 & _ & _ & _ & T).
   set (w1 := after_command (set_io w no_io) (RNFR_ ++ SP :: a) x1) in *. clearbody w1.
   change (w_trace (set_io w no_io)) with (w_trace w) in T. change (w_obs (set_io w no_io)) with (w_obs w) in *.
+  change (w_cfg (set_io w no_io)) with (w_cfg w) in D.
   split.
   - intro N. apply N.eqb_neq in N. rewrite N, run_ret. exists w1. split; [reflexivity|].
-    split; [exact A|]. split; [exact C|]. split; [exact B|].
+    split; [exact A|]. split; [exact C|]. split; [exact B|]. split; [exact D|].
     rewrite T, skipn_app, skipn_all, Nat.sub_diag. cbn [skipn app].
     rewrite !wire_events_app, !wire_events_block. cbn [app wire_events]. rewrite wire_events_block. reflexivity.
   - intros E r2 rest2 x2 -> Hs2. apply N.eqb_eq in E. rewrite E.
     rewrite (pc_step RNTO_ (Some b) _ w1 r2 rest2 x2 A B Hs2 Hb).
-    destruct (after_command_facts w1 (RNTO_ ++ SP :: b) x2 r2 rest2 A B Hs2 C) as (A2 & B2 & C2 & _ & _ & _ & _ & _ & _ & T2).
+    destruct (after_command_facts w1 (RNTO_ ++ SP :: b) x2 r2 rest2 A B Hs2 C) as (A2 & B2 & C2 & D2 & _ & _ & _ & _ & _ & T2).
     rewrite run_ret. eexists. split; [reflexivity|]. split; [exact A2|]. split; [exact C2|]. split; [exact B2|].
+    split; [rewrite D2; exact D|].
     rewrite T2, T, <- !app_assoc, skipn_app, skipn_all, Nat.sub_diag. cbn [skipn app].
     rewrite !wire_events_app, !wire_events_block. cbn [app wire_events].
     rewrite !wire_events_app, !wire_events_block. cbn [app wire_events]. rewrite wire_events_block. reflexivity.
@@ -1038,13 +1042,13 @@ Lemma refused_tail (w w1 : world) (line : bytes) (x : reply) (rest : list reacti
   ready w1 -> w_cur w1 = rest -> w_pending w1 = [] -> w_data w1 = None ->
   w_trace w1 = w_trace w ++ block (w_obs w) (ORequest line) ++ [EWire s o line] ++ [ERecv o x] ++ block (w_obs w) (OReply x) ->
   let w' := set_data (close_data w1) None in
-  ready w' /\ w_pending w' = [] /\ w_cur w' = rest /\ w_data w' = None /\
+  ready w' /\ w_pending w' = [] /\ w_cur w' = rest /\ w_data w' = None /\ w_cfg w' = w_cfg w1 /\
   io_events (skipn (length (w_trace w)) (w_trace w')) = [] /\
   data_events (skipn (length (w_trace w)) (w_trace w')) = [] /\
   wire_events (skipn (length (w_trace w)) (w_trace w')) = [WLine line; WReply x].
 Proof.
   intros A B C Dd T. rewrite (close_data_none w1 Dd). cbv zeta.
-  split; [apply ready_set_data; exact A|]. split; [exact C|]. split; [exact B|]. split; [reflexivity|].
+  split; [apply ready_set_data; exact A|]. split; [exact C|]. split; [exact B|]. split; [reflexivity|]. split; [reflexivity|].
   change (w_trace (set_data w1 None)) with (w_trace w1).
   rewrite T, skipn_app, skipn_all, Nat.sub_diag. cbn [skipn]. rewrite app_nil_l.
   rewrite !io_events_app, !data_events_app, !wire_events_app, !io_events_block, !data_events_block, !wire_events_block.
@@ -1062,7 +1066,7 @@ Theorem refused_at_passive_setup w verb path io r rest x :
     run (CheckArg path (Scope (create_data_connection verb (Some path) []
             (fun acc => PumpIn (fun _ => finish_transfer acc)) (fun acc => Ret (RvReplies acc))))) (set_io w io)
       = (OReturn (RvReplies [x]), w') /\
-    ready w' /\ w_pending w' = [] /\ w_cur w' = rest /\ w_data w' = None /\
+    ready w' /\ w_pending w' = [] /\ w_cur w' = rest /\ w_data w' = None /\ w_cfg w' = w_cfg w /\
     io_events (skipn (length (w_trace w)) (w_trace w')) = [] /\
     data_events (skipn (length (w_trace w)) (w_trace w')) = [] /\
     wire_events (skipn (length (w_trace w)) (w_trace w')) = [WLine setup; WReply x].
@@ -1074,18 +1078,22 @@ Proof.
   destruct (c_rfc2428 (w_cfg w)).
   - rewrite (pc_step EPSV_ None _ (set_io w io) r rest x Hr' Hc Hs I). rewrite Hn, run_ret.
     destruct (after_command_facts (set_io w io) (EPSV_ ++ []) x r rest Hr' Hc Hs Hp)
-      as (A & B & C & _ & Dd & _ & _ & _ & _ & T).
-    rewrite app_nil_r in *.
-    generalize dependent (after_command (set_io w io) EPSV_ x). intros w1 A B C Dd T.
+      as (A & B & C & Cf & Dd & _ & _ & _ & _ & T).
+    rewrite app_nil_r in *. change (w_cfg (set_io w io)) with (w_cfg w) in Cf.
+    generalize dependent (after_command (set_io w io) EPSV_ x). intros w1 A B C Cf Dd T.
     eexists. split; [reflexivity|].
-    apply (refused_tail w w1 EPSV_ x rest (w_ssl (set_io w io) && w_tls_up (set_io w io)) (w_ord (set_io w io)) A B C); [rewrite Dd; exact Hd|exact T].
+    destruct (refused_tail w w1 EPSV_ x rest (w_ssl (set_io w io) && w_tls_up (set_io w io)) (w_ord (set_io w io)) A B C) as (F1 & F2 & F3 & F4 & F5 & F6 & F7 & F8);
+      [rewrite Dd; exact Hd|exact T|].
+    split; [exact F1|]. split; [exact F2|]. split; [exact F3|]. split; [exact F4|]. split; [rewrite F5; exact Cf|]. auto.
   - rewrite (pc_step PASV_ None _ (set_io w io) r rest x Hr' Hc Hs I). rewrite Hn, run_ret.
     destruct (after_command_facts (set_io w io) (PASV_ ++ []) x r rest Hr' Hc Hs Hp)
-      as (A & B & C & _ & Dd & _ & _ & _ & _ & T).
-    rewrite app_nil_r in *.
-    generalize dependent (after_command (set_io w io) PASV_ x). intros w1 A B C Dd T.
+      as (A & B & C & Cf & Dd & _ & _ & _ & _ & T).
+    rewrite app_nil_r in *. change (w_cfg (set_io w io)) with (w_cfg w) in Cf.
+    generalize dependent (after_command (set_io w io) PASV_ x). intros w1 A B C Cf Dd T.
     eexists. split; [reflexivity|].
-    apply (refused_tail w w1 PASV_ x rest (w_ssl (set_io w io) && w_tls_up (set_io w io)) (w_ord (set_io w io)) A B C); [rewrite Dd; exact Hd|exact T].
+    destruct (refused_tail w w1 PASV_ x rest (w_ssl (set_io w io) && w_tls_up (set_io w io)) (w_ord (set_io w io)) A B C) as (F1 & F2 & F3 & F4 & F5 & F6 & F7 & F8);
+      [rewrite Dd; exact Hd|exact T|].
+    split; [exact F1|]. split; [exact F2|]. split; [exact F3|]. split; [exact F4|]. split; [rewrite F5; exact Cf|]. auto.
 Qed.
 
 (* ================================================================== C13 *)
